@@ -105,21 +105,61 @@ impl tokio::io::AsyncWrite for MoodySink {
 /// A stream that delivers its bytes in fragments (the way a socket does) and then EOF.  `frag` = 0: all that
 /// is asked for; n > 0: at most n bytes per read; the async side additionally returns `Pending` before every
 /// other fragment when `frag` is odd.
+/// How a stream is delivered: `frag` = at most that many bytes per read (0 = whatever is asked for); `cuts` = absolute
+/// stream offsets no read crosses (2–3 pieces with PRNG-chosen cut points: inside the header, at 48, inside the query,
+/// at the query/body boundary, inside the body, at frame boundaries); `panic_at` = the reader itself panics when asked
+/// for the byte at that offset (audit class m: what a reused buffer looks like after an unwind).
+#[derive(Clone, Default)]
+struct FragSpec {
+    frag: usize,
+    cuts: Vec<usize>,
+    panic_at: Option<usize>,
+}
+fn parse_frag(tok: Option<&str>) -> FragSpec {
+    let mut sp = FragSpec::default();
+    if let Some(t) = tok {
+        if let Some(c) = t.strip_prefix('c') {
+            sp.cuts = c.split('.').filter_map(|x| x.parse().ok()).collect();
+            sp.cuts.sort();
+        } else if let Some(k) = t.strip_prefix('p') {
+            sp.panic_at = k.parse().ok();
+        } else {
+            sp.frag = t.parse().unwrap_or(0);
+        }
+    }
+    sp
+}
+
 struct FragReader<'a> {
     data: &'a [u8],
-    frag: usize,
+    spec: FragSpec,
+    pos: usize,
     polls: usize,
 }
 impl<'a> FragReader<'a> {
-    fn new(data: &'a [u8], frag: usize) -> FragReader<'a> {
-        FragReader { data, frag, polls: 0 }
+    fn new(data: &'a [u8], spec: &FragSpec) -> FragReader<'a> {
+        FragReader { data, spec: spec.clone(), pos: 0, polls: 0 }
     }
     fn take(&mut self, want: usize) -> &'a [u8] {
-        let lim = if self.frag == 0 { want } else { want.min(self.frag) };
+        let mut lim = if self.spec.frag == 0 { want } else { want.min(self.spec.frag) };
+        if let Some(c) = self.spec.cuts.iter().find(|c| **c > self.pos) {
+            lim = lim.min(*c - self.pos);
+        }
+        if let Some(k) = self.spec.panic_at {
+            if self.pos >= k && want > 0 {
+                panic!("the stream's read() panicked");
+            }
+            lim = lim.min(k - self.pos);
+        }
         let n = lim.min(self.data.len());
         let (a, b) = self.data.split_at(n);
         self.data = b;
+        self.pos += n;
         a
+    }
+    fn pending_now(&mut self) -> bool {
+        self.polls += 1;
+        (self.spec.frag % 2 == 1 || !self.spec.cuts.is_empty()) && self.polls % 2 == 0
     }
 }
 impl<'a> std::io::Read for FragReader<'a> {
@@ -131,8 +171,7 @@ impl<'a> std::io::Read for FragReader<'a> {
 }
 impl<'a> tokio::io::AsyncRead for FragReader<'a> {
     fn poll_read(mut self: std::pin::Pin<&mut Self>, cx: &mut std::task::Context<'_>, buf: &mut tokio::io::ReadBuf<'_>) -> std::task::Poll<std::io::Result<()>> {
-        self.polls += 1;
-        if self.frag % 2 == 1 && self.polls % 2 == 0 {
+        if self.pending_now() {
             cx.waker().wake_by_ref();
             return std::task::Poll::Pending;
         }
@@ -234,7 +273,31 @@ fn exec(out: &mut Out, world: &mut World, line: &str, rtm: &tokio::runtime::Runt
             let m = Message { header: h, query: q.clone(), body: mk_body() };
             let r0 = m.to_vec();
             let mut r1 = Vec::new();
-            m.write_to(&mut r1).unwrap();
+            if cap % 8 == 0 {
+                // class j: every observer of Message / Header / MessageView hammered from two threads while the message is
+                // being emitted; they take &self, so the message and what is emitted must be untouched
+                let before = m.clone();
+                let seen = std::sync::atomic::AtomicU64::new(0);
+                std::thread::scope(|sc| {
+                    for _ in 0..2 {
+                        sc.spawn(|| {
+                            for _ in 0..40 {
+                                let n = m.serialized_len() + m.is_error() as usize + m.error_code().is_some() as usize + m.query_utf8().len() + m.body_utf8().len()
+                                    + m.query_str().is_ok() as usize + m.error_message_utf8().map(|x| x.len()).unwrap_or(0) + format!("{:?}", m.header).len()
+                                    + (m.header == m.header.clone()) as usize + m.header.encode().len();
+                                seen.fetch_add(n as u64, std::sync::atomic::Ordering::Relaxed);
+                            }
+                        });
+                    }
+                    m.write_to(&mut r1).unwrap();
+                });
+                if m != before {
+                    out.oracle_fail("wire.observers.mutated", "a Message changed while only observers ran on it", &[line.to_string()]);
+                }
+                out.count("wire.observers");
+            } else {
+                m.write_to(&mut r1).unwrap();
+            }
             let body2 = mk_body();
             let realcap = body2.capacity();
             if realcap != cap.max(b.len()) {
@@ -592,26 +655,37 @@ fn exec(out: &mut Out, world: &mut World, line: &str, rtm: &tokio::runtime::Runt
             // readm <idx> <reader 0..3> <frag> <stream> <stream> …: ONE reader value and ONE reused buffer over several
             // streams in a row; a stream may end in an error or mid-frame — the next one must be read as with a fresh buffer
             let kind = w[2];
-            let frag: usize = w[3].parse().unwrap();
-            let streams: Vec<Vec<u8>> = w[4..].iter().map(|x| unhex(x).unwrap()).collect();
+            let frag = parse_frag(Some(w[3]));
+            // a stream token `p<k>:<hex>`: the stream's own read() panics when asked for byte k (the unwind passes through the
+            // reader; the buffer is then reused for the next stream)
+            let streams: Vec<(Option<usize>, Vec<u8>)> = w[4..].iter().map(|x| match x.strip_prefix('p').and_then(|t| t.split_once(':')) {
+                Some((k, h)) => (k.parse().ok(), unhex(h).unwrap()),
+                None => (None, unhex(x).unwrap()),
+            }).collect();
             let ops = vec![line.to_string()];
             let r = catch(|| {
                 let mut buf: Vec<u8> = Vec::with_capacity(17);
                 buf.extend_from_slice(b"stale-bytes-from-an-earlier-use");
                 let mut per: Vec<(Vec<Vec<u8>>, String)> = Vec::new();
-                for sbytes in &streams {
-                    let mut cur = FragReader::new(sbytes, frag);
+                for (panic_at, sbytes) in &streams {
+                    let mut spec = frag.clone();
+                    spec.panic_at = *panic_at;
+                    let mut cur = FragReader::new(sbytes, &spec);
                     let mut frames: Vec<Vec<u8>> = Vec::new();
                     let end = loop {
-                        let res: Result<Vec<u8>, repe::RepeError> = match kind {
-                            "0" => repe::read_message(&mut cur).map(|m| m.to_vec()),
-                            "2" => rtm.block_on(async { repe::async_io::read_message_async(&mut cur).await }).map(|m| m.to_vec()),
-                            "1" => repe::read_message_into(&mut cur, &mut buf).map(|_| buf.clone()),
-                            _ => rtm.block_on(async { repe::async_io::read_message_into_async(&mut cur, &mut buf).await }).map(|_| buf.clone()),
-                        };
-                        match res {
-                            Ok(f) => frames.push(f),
-                            Err(e) => break err_class(&e),
+                        let one = catch(|| -> Result<Vec<u8>, repe::RepeError> {
+                            match kind {
+                                "0" => repe::read_message(&mut cur).map(|m| m.to_vec()),
+                                "2" => rtm.block_on(async { repe::async_io::read_message_async(&mut cur).await }).map(|m| m.to_vec()),
+                                "1" => repe::read_message_into(&mut cur, &mut buf).map(|_| buf.clone()),
+                                _ => rtm.block_on(async { repe::async_io::read_message_into_async(&mut cur, &mut buf).await }).map(|_| buf.clone()),
+                            }
+                        });
+                        match one {
+                            Ok(Ok(f)) => frames.push(f),
+                            Ok(Err(e)) => break err_class(&e),
+                            Err(_) if panic_at.is_some() => break "panicked".to_string(),
+                            Err(m) => std::panic::panic_any(m),
                         }
                         if frames.len() > 10_000 { break "runaway".to_string(); }
                     };
@@ -627,10 +701,11 @@ fn exec(out: &mut Out, world: &mut World, line: &str, rtm: &tokio::runtime::Runt
                 Ok(per) => {
                     let mut shown = Vec::new();
                     for (i, (frames, end)) in per.iter().enumerate() {
-                        let (want, _) = RawFrame::split_stream(&streams[i]);
+                        let visible = match streams[i].0 { Some(k) => &streams[i].1[..k.min(streams[i].1.len())], None => &streams[i].1[..] };
+                        let (want, _) = RawFrame::split_stream(visible);
                         let want: Vec<Vec<u8>> = want.iter().map(|f| f.to_vec()).collect();
                         if *frames != want {
-                            out.oracle_fail(&format!("parse.readm{}.frames_after_reuse", kind), &format!("stream {} of {} read with a reused buffer (fragments of {}): got {} frames, the stream holds {} whole frames (or their bytes differ)", i + 1, per.len(), frag, frames.len(), want.len()), &ops);
+                            out.oracle_fail(&format!("parse.readm{}.frames_after_reuse", kind), &format!("stream {} of {} read with a reused buffer: got {} frames, the stream holds {} whole frames (or their bytes differ)", i + 1, per.len(), frames.len(), want.len()), &ops);
                         }
                         let fs: Vec<String> = frames.iter().map(|f| format!("{}:{:016x}", f.len(), fnv(f))).collect();
                         shown.push(format!("n={} [{}] end={}", frames.len(), fs.join(","), end));
@@ -663,9 +738,9 @@ fn exec(out: &mut Out, world: &mut World, line: &str, rtm: &tokio::runtime::Runt
         "read0" | "read2" => {
             let bs = unhex(w[2]).unwrap();
             let op = w[0];
-            let frag: usize = w.get(3).and_then(|x| x.parse().ok()).unwrap_or(0);
+            let frag = parse_frag(w.get(3).copied());
             let r = catch(|| {
-                let mut src = FragReader::new(&bs, frag);
+                let mut src = FragReader::new(&bs, &frag);
                 if op == "read0" {
                     repe::read_message(&mut src)
                 } else {
@@ -679,10 +754,10 @@ fn exec(out: &mut Out, world: &mut World, line: &str, rtm: &tokio::runtime::Runt
         "read1" | "read3" => {
             let bs = unhex(w[2]).unwrap();
             let op = w[0];
-            let frag: usize = w.get(3).and_then(|x| x.parse().ok()).unwrap_or(0);
+            let frag = parse_frag(w.get(3).copied());
             let r = catch(|| {
                 let mut buf = Vec::new();
-                let mut src = FragReader::new(&bs, frag);
+                let mut src = FragReader::new(&bs, &frag);
                 let res = if op == "read1" {
                     repe::read_message_into(&mut src, &mut buf)
                 } else {
@@ -707,10 +782,10 @@ fn exec(out: &mut Out, world: &mut World, line: &str, rtm: &tokio::runtime::Runt
             // buffer that starts with spare capacity, the way the servers use them
             let bs = unhex(w[2]).unwrap();
             let op = w[0];
-            let frag: usize = w.get(3).and_then(|x| x.parse().ok()).unwrap_or(0);
+            let frag = parse_frag(w.get(3).copied());
             let r = catch(|| {
                 let mut frames: Vec<Vec<u8>> = Vec::new();
-                let mut cur = FragReader::new(&bs, frag);
+                let mut cur = FragReader::new(&bs, &frag);
                 let mut buf: Vec<u8> = Vec::with_capacity(4096);
                 let end = loop {
                     let res: Result<Vec<u8>, repe::RepeError> = match op {
@@ -820,6 +895,7 @@ fn gen_len(r: &mut Rng, big: bool) -> usize {
 
 fn gen_wire(r: &mut Rng, n: usize, big_every: usize) -> Vec<String> {
     let mut ops = Vec::new();
+    let mut next_sink = 6usize;
     for i in 0..n {
         let big = big_every > 0 && i % big_every == 0;
         let q = { let l = gen_len(r, big); r.bytes(l) };
@@ -854,8 +930,10 @@ fn gen_wire(r: &mut Rng, n: usize, big_every: usize) -> Vec<String> {
             let ec = *r.pick(&[0u32, 1, 2, 3, 4, 5, 6, 7, 8, 9, 4096]);
             ops.push(format!("build {}b {} {} {} {} {} {} {} {}", i, r.boundary(64), r.below(2), ec, r.boundary(16), r.boundary(16), hex(&q), hex(&b), r.below(12)));
         }
-        if i % 7 == 6 || i + 1 == n {
+        if i >= next_sink || i + 1 == n {
+            // class g: 1, 2, 7, 8, 9, 16, 17 (thorough: 64, 65, 256, 1000) frames in a row through the persistent writers
             ops.push(format!("sink {}s", i));
+            next_sink = i + *r.pick(if big_every <= 40 { &[1usize, 2, 7, 8, 9, 16, 17, 64, 65, 256, 1000][..] } else { &[1usize, 2, 7, 8, 9, 16, 17][..] });
         }
         if i % 9 == 0 {
             gen_aux(r, &mut ops, i, &h, &q, &b);
@@ -932,6 +1010,77 @@ fn gen_aux(r: &mut Rng, ops: &mut Vec<String>, i: usize, h: &RawHeader, q: &[u8]
 }
 
 const FRAGS: &[usize] = &[0, 0, 1, 2, 3, 7, 47, 48, 49, 64, 1000, 4097];
+const RUNS_QUICK: &[usize] = &[1, 2, 7, 8, 9, 16, 17, 64, 65];
+const RUNS_THOROUGH: &[usize] = &[1, 2, 7, 8, 9, 16, 17, 64, 65, 256, 1000];
+
+/// class h: every query length and every body length 0..=max once (an internal threshold — inline buffer, stack array, small-
+/// size fast path — can sit at any value, not only next to a power of two), plus 2^k-3..2^k+3 up to 64 KiB.
+fn gen_dense(r: &mut Rng, max: usize, pow2_up_to: u32) -> Vec<String> {
+    let mut lens: Vec<usize> = (0..=max).collect();
+    for k in 9..=pow2_up_to {
+        for d in -3i64..=3 {
+            let v = (1i64 << k) + d;
+            if v as usize > max { lens.push(v as usize); }
+        }
+    }
+    let mut ops = Vec::new();
+    for (i, &l) in lens.iter().enumerate() {
+        for which in 0..2 {
+            let (ql, bl) = if which == 0 { (l, r.below(9) as usize) } else { (r.below(9) as usize, l) };
+            let (q, b) = (r.bytes(ql), r.bytes(bl));
+            let mut h = RawFrame::request(r.next(), false, 1, &q, 2, &b).h;
+            h.reserved = r.next() as u32;
+            let total = 48 + ql + bl;
+            let cap = *r.pick(&[bl, total - 1, total, total + 1, 2 * total]);
+            ops.push(format!("msg d{}{} {} {} {} {} {} {} {}", i, which, h.fields(), hex(&q), hex(&b), cap, *r.pick(&[0usize, 48, 300]), *r.pick(&[1usize, 7, 48, 1000]), r.below(2)));
+        }
+        if i % 16 == 15 { ops.push(format!("sink d{}s", i)); }
+    }
+    ops.push("sink dend".to_string());
+    ops
+}
+
+/// 2–3 pieces with cut points at the places that matter for a frame `48 + ql + bl` long starting at `base`.
+fn gen_cuts(r: &mut Rng, base: usize, ql: usize, bl: usize) -> String {
+    let total = 48 + ql + bl;
+    let mut pts = Vec::new();
+    for _ in 0..r.range(1, 2) {
+        pts.push(base + match r.below(7) {
+            0 => 1 + r.below(47) as usize,
+            1 => 48,
+            2 if ql > 1 => 48 + 1 + r.below(ql as u64 - 1) as usize,
+            3 => 48 + ql,
+            4 if bl > 1 => 48 + ql + 1 + r.below(bl as u64 - 1) as usize,
+            5 => total,
+            _ => 1 + r.below(total as u64) as usize,
+        });
+    }
+    pts.sort();
+    format!("c{}", pts.iter().map(|x| x.to_string()).collect::<Vec<_>>().join("."))
+}
+
+/// class g for the readers: N identical frames back to back (header-only "keep-alives", small, medium) through one reader
+/// and one reused buffer; class i: the same with 2–3-piece delivery.
+fn gen_runs(r: &mut Rng, runs: &[usize], tag: &str) -> Vec<String> {
+    let mut ops = Vec::new();
+    let mut k = 0;
+    for &n in runs {
+        for kind in 0..3 {
+            let (q, b) = match kind { 0 => (vec![], vec![]), 1 => (b"/k".to_vec(), r.bytes(3)), _ => (r.bytes(20), r.bytes(280)) };
+            let f = RawFrame::request(7, kind == 0, 1, &q, 2, &b).to_vec();
+            let mut stream = Vec::with_capacity(f.len() * n);
+            for _ in 0..n { stream.extend_from_slice(&f); }
+            let base = f.len() * r.below(n as u64) as usize;
+            let spec = if r.chance(1, 2) { gen_cuts(r, base, q.len(), b.len()) } else { r.pick(FRAGS).to_string() };
+            for name in ["reads0", "reads1", "reads2", "reads3"] {
+                ops.push(format!("{} {}{} {} {}", name, tag, k, hex(&stream), spec));
+                k += 1;
+            }
+        }
+    }
+    ops
+}
+
 
 const MIB16: u64 = 16 << 20;
 
@@ -1106,6 +1255,7 @@ fn gen_parse(r: &mut Rng, n: usize, truncation_sweeps: usize) -> Vec<String> {
     }
     drop(push);
     ops.extend(gen_readm(r, (n / 40).max(12), "pm"));
+    ops.extend(gen_runs(r, if n > 10_000 { RUNS_THOROUGH } else { RUNS_QUICK }, "pr"));
     ops
 }
 
@@ -1114,7 +1264,8 @@ fn gen_parse(r: &mut Rng, n: usize, truncation_sweeps: usize) -> Vec<String> {
 fn gen_readm(r: &mut Rng, n: usize, tag: &str) -> Vec<String> {
     let mut ops = Vec::new();
     for i in 0..n {
-        let ns = r.range(2, 4);
+        // class g: now and then 7, 8, 9, 16, 17 error results in a row on the one buffer
+        let ns = if i % 5 == 4 { *r.pick(&[7u64, 8, 9, 16, 17]) } else { r.range(2, 4) };
         let mut streams = Vec::new();
         for s in 0..ns {
             let mut stream = Vec::new();
@@ -1125,17 +1276,22 @@ fn gen_readm(r: &mut Rng, n: usize, tag: &str) -> Vec<String> {
                 let (q, b) = (r.bytes(ql), r.bytes(bl));
                 stream.extend(RawFrame::request(100 * s + j, r.chance(1, 4), 1, &q, 2, &b).to_vec());
             }
-            match r.below(6) {
+            if ns > 4 && stream.len() > 400 { stream.truncate(400 - (s as usize % 7)); }
+            let mut panics_at: Option<usize> = None;
+            match r.below(7) {
                 0 => { let cut = r.below(stream.len() as u64) as usize; stream.truncate(cut); }
                 1 => { let l = 1 + r.below(80) as usize; stream.extend(r.bytes(l)); }
                 2 => stream.extend(RawHeader { length: 48 + (1 << 62), spec: 0x1507, version: 1, body_length: 1 << 62, ..Default::default() }.encode()),
                 3 => stream.extend(RawHeader { length: 47, spec: 0x1507, version: 1, query_length: u64::MAX, ..Default::default() }.encode()),
+                // class m: the stream's own read() panics at a random offset; the unwind goes through the reader
+                4 if ns <= 4 => panics_at = Some(r.below(stream.len() as u64) as usize),
                 _ => {}
             }
-            streams.push(hex(&stream));
+            streams.push(match panics_at { Some(k) => format!("p{}:{}", k, hex(&stream)), None => hex(&stream) });
         }
         for kind in 0..4 {
-            ops.push(format!("readm {}{}k{} {} {} {}", tag, i, kind, kind, *r.pick(FRAGS), streams.join(" ")));
+            let spec = if r.chance(1, 3) { gen_cuts(r, 0, 10, 300) } else { r.pick(FRAGS).to_string() };
+            ops.push(format!("readm {}{}k{} {} {} {}", tag, i, kind, kind, spec, streams.join(" ")));
         }
     }
     ops
@@ -1618,6 +1774,8 @@ fn main() {
             }
         }
         ops.extend(gen_readm(&mut rng, if args.thorough() { 200 } else { 16 }, "wm"));
+        ops.extend(if args.thorough() { gen_dense(&mut rng, 4200, 16) } else { gen_dense(&mut rng, 520, 0) });
+        ops.extend(gen_runs(&mut rng, if args.thorough() { RUNS_THOROUGH } else { &RUNS_QUICK[..7] }, "wr"));
         ops
     } else {
         out.flush_each = true;
